@@ -85,6 +85,15 @@ def cases_c09g(gb, rng, tier):
                         for mode in ('sync', 'async:1'):
                             cases.append(dict(line=genrun.case_line('mem', cfg, tname, proto, mode, data), cfg=cfg, type=tname, proto=proto,
                                               mode=mode, n=len(data), nontrivial=True, model=False, deep=depth))
+            # nested preallocation (finding F-09h): k nested list<Self> headers, each announcing as many elements as bytes remain
+            # (which the runtime's size check allows); the emitted sync decoder preallocates at every level: quadratic in the input
+            recl = [f for f in d.get('fields', []) if d['kind'] == 'struct' and sch.resolve(f['ty']) == ('list', ('ref', tname)) and 0 < f['id'] < 128]
+            if recl:
+                fid = recl[0]['id']
+                for kk in ((300,) if tier == 'quick' else (100, 300, 1000)):
+                    data = b''.join(bytes([15, 0, fid, 12]) + (8 * (kk - 1 - i)).to_bytes(4, 'big') for i in range(kk))
+                    cases.append(dict(line=genrun.case_line('mem', cfg, tname, 'binary', 'sync', data), cfg=cfg, type=tname, proto='binary',
+                                      mode='sync', n=len(data), nontrivial=True, model=False, nested_prealloc=kk))
     return cases
 
 
@@ -124,7 +133,8 @@ def eval_c09g(gb, case, out):
     # memory in proportion to the input: decoded values cost a bounded factor per input byte (hash containers,
     # Vec of structs ...); 4 KiB + 512 bytes per input byte is far above anything a faithful decoder needs
     if peak > 4096 + 512 * case['n']:
-        return [('emitted decoder requests %d bytes for a %d-byte input' % (peak, case['n']), prealloc)]
+        cls = 'nested-container-prealloc' if case.get('nested_prealloc') else prealloc
+        return [('emitted decoder requests %d bytes for a %d-byte input' % (peak, case['n']), cls)]
     return []
 
 
